@@ -68,7 +68,7 @@ partial def evalPipe : Sexp → Option (Stream × Stream)
   | .list (.atom "from_iter" :: vs) => (vs.mapM parseData).map fun ds => ((ds, .complete), (ds, .complete))
   | .list (.atom "from_iter_lazy" :: vs) => (vs.mapM parseData).map fun ds => ((ds, .complete), (ds, .complete))
   | .list [.atom "range", a, n] => do
-      let a ← a.asInt; let n ← n.asNat
+      let a ← a.asInt; let n := (← n.asInt).toNat      -- a non-positive count is the empty range
       let ds := (List.range n).map fun (i : Nat) => Data.int (a + (i : Int))
       some ((ds, .complete), (ds, .complete))
   | .list [.atom "empty"] => some (([], .complete), ([], .complete))
